@@ -999,6 +999,17 @@ fn dump<'tcx>(tcx: TyCtxt<'tcx>, crate_name: &str) -> J {
             }
         }
         v.extend(cx.body(body));
+        if is_fn {
+            // promoted constants (`&CONST` temporaries): exported so that a reference to e.g. Uint::ZERO is recognisable
+            let proms = tcx.promoted_mir(did);
+            if !proms.is_empty() {
+                let mut pj = Vec::new();
+                for pb in proms.iter() {
+                    pj.push(J::obj(cx.body(pb)));
+                }
+                v.push(("promoted", J::A(pj)));
+            }
+        }
         bodies.push(J::obj(v));
     }
 
